@@ -1149,7 +1149,9 @@ class GenericPlainRegistry(Generic[QuantityT, UnitT], metaclass=RegistryMeta):
                             self._suffixes[suffix],
                         )
                 else:
-                    for real_name in self._units_casei.get(name.lower(), ()):
+                    real_names = self._units_casei.get(name.lower(), ())
+                    # exact spelling first, then a stable order
+                    for real_name in sorted(real_names, key=lambda n: (n != name, n)):
                         yield (
                             self._prefixes[prefix].name,
                             self._units[real_name].name,
